@@ -1,6 +1,7 @@
 package ir
 
 import (
+	"strings"
 	"fmt"
 	"go/types"
 	"reflect"
@@ -47,8 +48,11 @@ func inlinable(fn *ssa.Function) bool {
 }
 
 func inlinableBody(fn *ssa.Function) bool {
-	if fn == nil || len(fn.Blocks) == 0 || fn.Synthetic != "" || fn.Recover != nil {
+	if fn == nil || len(fn.Blocks) == 0 || fn.Recover != nil {
 		return false
+	}
+	if fn.Synthetic != "" && !strings.HasPrefix(fn.Synthetic, "instance of") {
+		return false // wrappers, thunks, init; instances of generic helpers are fine
 	}
 	if fn.Signature.Variadic() && false {
 		return false
@@ -460,6 +464,13 @@ func inlineCallWith(caller *ssa.Function, call *ssa.Call, callee *ssa.Function, 
 				}
 			}
 		}
+	}
+	rebuildReferrers(caller)
+	// `return helper(x)`: the continuation is nothing but result phis and the return - give every
+	// return of the helper its own return in the caller again
+	splitReturnBlock(caller, C)
+	for i, b := range caller.Blocks {
+		b.Index = i
 	}
 	rebuildReferrers(caller)
 	return nil
